@@ -93,13 +93,29 @@ func main() {
 			}
 		}
 		desc := false
+		var pre []PreCall
 		for _, a := range os.Args[5:] {
 			if a == "-desc" {
 				desc = true
 			}
+			// -pre=VerifXxx:1,2,3 (repeatable): harnesses run before the main one in the same state
+			if strings.HasPrefix(a, "-pre=") {
+				parts := strings.SplitN(a[5:], ":", 2)
+				pc := PreCall{Harness: parts[0], Shape: []int{}}
+				if len(parts) == 2 && parts[1] != "" {
+					for _, x := range strings.Split(parts[1], ",") {
+						v, err := strconv.Atoi(x)
+						if err != nil {
+							usage()
+						}
+						pc.Shape = append(pc.Shape, v)
+					}
+				}
+				pre = append(pre, pc)
+			}
 		}
 		spec := &PropSpec{ID: "ADHOC", Pkgs: []string{key}, Items: func(string, int64) []Item {
-			return []Item{{PkgKey: key, Func: fn, Shape: shape, MapDesc: desc}}
+			return []Item{{PkgKey: key, Func: fn, Shape: shape, MapDesc: desc, Pre: pre}}
 		}, Bounds: func(string) map[string]string { return nil }}
 		opts := defaultOpts("quick")
 		opts.Verbose = true
